@@ -1,14 +1,40 @@
 (* Props/C02.v — pinned statements of property C02 (script bytes survive parsing unchanged; pushes are
-   decoded and encoded exactly).  Statements only; proofs are in Proofs/ScriptProofs.v. *)
+   decoded and encoded exactly).  Statements only; proofs are in Proofs/ScriptProofs.v.
+   `from_bytes` is the model of Script::from_bytes (tied to the Rust code by the correspondence run),
+   `tokenize_spec`/`balanced`/`minimal_prefix` are the independent specification (Spec/ScriptTok.v). *)
 From BSV Require Import Base.Hex Model.Opcodes Model.Script Spec.ScriptTok Proofs.ScriptProofs.
 
-(* 1+2. Every accepted byte string outside the known-finding class re-serialises to itself, and its parsed
-   element sequence (conditionals flattened in order) is what the independent tokenizer reads. *)
+(* 1+2. Every accepted byte string outside the known-finding class re-serialises to exactly itself, and its
+   parsed element sequence (conditionals flattened in order) is what the independent tokenizer reads.
+   Full-strength statement (without the class hypothesis) is FALSE of the code: see C02_refuted_on_class. *)
 Theorem C02_script_roundtrip :
   forall bs s, from_bytes bs = Ok s -> truncated_tail bs = false ->
                to_bytes s = bs /\ tokenize_spec bs = TokOk (flatten s).
 Proof. exact script_roundtrip. Qed.
 Print Assumptions C02_script_roundtrip.
+
+(* 3. Acceptance: a byte string is accepted exactly when the independent tokenizer reads it completely (no
+   truncated OP_PUSHDATAn, no unknown opcode byte) and its conditionals are closed; otherwise it is rejected
+   with an error — never a panic.  (The truncated-direct-push class is the recorded finding.) *)
+Theorem C02_acceptance :
+  forall bs,
+  match tokenize_spec bs with
+  | TokOk ts => if balanced ts then exists s, from_bytes bs = Ok s else from_bytes bs = Err
+  | TokBad => from_bytes bs = Err
+  | TokTruncDirect => exists r, from_bytes bs = r /\ r <> Panic
+  end.
+Proof. exact from_bytes_acceptance. Qed.
+Print Assumptions C02_acceptance.
+
+Theorem C02_parser_total : forall bs, from_bytes bs <> Panic.
+Proof. exact from_bytes_no_panic. Qed.
+Print Assumptions C02_parser_total.
+
+(* the specification tokenizer's fuel is irrelevant once it covers the input (it is a total function of bs) *)
+Theorem C02_spec_fuel_irrelevant :
+  forall f1 f2 bs, length bs <= f1 -> length bs <= f2 -> tok_spec f1 bs = tok_spec f2 bs.
+Proof. exact tok_spec_fuel. Qed.
+Print Assumptions C02_spec_fuel_irrelevant.
 
 (* 4. Nesting is inverted by flattening, for any depth. *)
 Theorem C02_nest_flatten :
@@ -16,7 +42,35 @@ Theorem C02_nest_flatten :
 Proof. exact nest_flatten. Qed.
 Print Assumptions C02_nest_flatten.
 
-(* non-vacuity: a nested script is accepted and is outside the class *)
+(* 5. The push-encoding helper chooses the minimal form for every length 1 .. 2^32-1 and its output parses
+   back to a single push of the same data. *)
+Theorem C02_encode_pushdata_minimal :
+  forall d, (1 <= N.of_nat (length d) < 4294967296)%N ->
+    encode_pushdata d = Ok (minimal_prefix (N.of_nat (length d)) ++ d) /\
+    from_bytes (minimal_prefix (N.of_nat (length d)) ++ d) = Ok [push_bit d].
+Proof. exact encode_pushdata_minimal. Qed.
+Print Assumptions C02_encode_pushdata_minimal.
+
+Theorem C02_prefix_minimal :
+  forall len, (1 <= len < 4294967296)%N -> get_pushdata_prefix_bytes len = Ok (minimal_prefix len).
+Proof. exact prefix_is_minimal. Qed.
+Print Assumptions C02_prefix_minimal.
+
+(* The known finding: a truncated direct push is accepted and silently shortened. *)
+Theorem C02_refuted_on_class :
+  truncated_tail [x05; x01] = true /\
+  from_bytes [x05; x01] = Ok [BPush [x01]] /\ to_bytes [BPush [x01]] = [x01; x01].
+Proof. exact truncated_direct_push_refuted. Qed.
+Print Assumptions C02_refuted_on_class.
+
+(* non-vacuity: a nested script with every push form is accepted, lies outside the class, and is balanced *)
 Example C02_nonvacuous :
-  exists s, from_bytes [x63; x51; x67; x00; x68; xac] = Ok s /\ truncated_tail [x63; x51; x67; x00; x68; xac] = false.
-Proof. eexists; split; vm_compute; reflexivity. Qed.
+  let bs := [x63; x02; xaa; xbb; x4c; x01; x07; x67; x4d; x01; x00; x09; x68; xac] in
+  (exists s, from_bytes bs = Ok s) /\ truncated_tail bs = false /\
+  (exists ts, tokenize_spec bs = TokOk ts /\ balanced ts = true).
+Proof. cbv zeta. split; [|split]; [eexists; vm_compute; reflexivity | vm_compute; reflexivity | eexists; split; vm_compute; reflexivity]. Qed.
+Example C02_unclosed_if_rejected : from_bytes [x63; x51] = Err /\ from_bytes [x63; x51; x67] = Err.
+Proof. split; vm_compute; reflexivity. Qed.
+Example C02_truncated_pushdata_rejected :
+  from_bytes [x4c; x05; x01] = Err /\ from_bytes [x4d; x05; x00; x01] = Err /\ from_bytes [x4e; x05; x00; x00; x00; x01] = Err.
+Proof. repeat split; vm_compute; reflexivity. Qed.
